@@ -319,4 +319,5 @@ def build():
                ensures=["result == bad_fields(node, type_map)"],
                loops={1: Loop(inv=["incorrect_fields == bad_fields(node, done1)"])},
                note="the returned list is exactly the fields whose value is_instance rejects for the field's resolved type, in mapping order (type_map abstracted as its items sequence)"))
+    world.trusted_notes.append("wf_ty / wf_val (the shape facts CPython's typing module guarantees for annotations, the value kinds) are assumed of EVERY annotation and value object, nested ones included: the induction hypotheses used for members, element types and wrapped types rely on that, the recursive summary is_instance#callee does not re-require them")
     return world, lib, reg, []
